@@ -189,7 +189,13 @@ func (fc *funcContext) translateStmt(stmt ast.Stmt, label *types.Label) {
 
 	case *ast.RangeStmt:
 		refVar := fc.newLocalVariable("_ref")
-		fc.Printf("%s = %s;", refVar, fc.translateExpr(s.X))
+		refExpr := fc.translateExpr(s.X).String()
+		if _, isArray := fc.typeOf(s.X).Underlying().(*types.Array); isArray && s.Value != nil && !isBlank(s.Value) && !fc.isTemporaryValue(s.X) {
+			// Ranging over an array value with an element variable iterates over a
+			// copy of the array: modifications made by the loop body are not seen.
+			refExpr = fmt.Sprintf("$clone(%s, %s)", refExpr, fc.typeName(fc.typeOf(s.X)))
+		}
+		fc.Printf("%s = %s;", refVar, refExpr)
 
 		switch t := fc.typeOf(s.X).Underlying().(type) {
 		case *types.Basic:
